@@ -105,10 +105,12 @@ HISTORIES = {
 
 
 def random_history(name):
-    """'random:<seed>': a random history around add_eltorito / rm_eltorito on a random image flavour"""
+    """'random:<seed>[:r]': a random history around add_eltorito / rm_eltorito on a random image flavour; with ':r' the image is
+    written and opened again at random points after the first boot entry and the history goes on on the opened object"""
     import random
     seed = int(name.split(':')[1])
-    rnd = random.Random('boot/%d' % seed)
+    with_reopen = name.endswith(':r')
+    rnd = random.Random('boot/%d' % seed + ('/r' if with_reopen else ''))
     kw = rnd.choice([dict(), dict(joliet=3), dict(rock_ridge='1.09'), dict(rock_ridge='1.12', joliet=3), dict(udf='2.60'), dict(udf='2.60', rock_ridge='1.09', joliet=3)])
     ops = []
     n = [0]
@@ -144,7 +146,9 @@ def random_history(name):
     if rnd.random() < 0.2:
         k['boot_load_seg'] = rnd.choice([0x7c0, 0x1000])
     ops.append(('eltorito', boot[1], k))
-    for _ in range(rnd.randint(0, 4)):
+    for _ in range(rnd.randint(0, 4) + (2 if with_reopen else 0)):
+        if with_reopen and rnd.random() < 0.5:
+            ops.append(('reopen',))
         r = rnd.random()
         if r < 0.5:
             ops.append(newfile(rnd.choice(dirs)))
@@ -214,6 +218,19 @@ def run_history(c, name):
         elif op[0] == 'rm_link':
             S.call(c, iso, 'rm_hard_link', iso_path=op[1])
             st['files'].pop(op[1])
+        elif op[0] == 'reopen':
+            # write what there is, open it again, go on with the opened object
+            img = S.written(c, iso)
+            if st['table']:
+                # a boot file with a boot info table is stored patched: from here on those stored bytes ARE the file's content
+                # (the original bytes 8..63 are not in the image any more)
+                im0, res0 = R.read_iso(list(V.items_of(img)))
+                tree0 = R.logical_tree(im0, res0['root'])
+                for p_, cid_ in st['files'].items():
+                    if st['table'].get(cid_) and p_.encode() in tree0:
+                        st['contents'][cid_] = bytes(R.file_bytes(im0, tree0[p_.encode()][1]))
+            iso = c.new(S.PC)
+            S.call(c, iso, 'open_fp', c.file(img))
     return iso, st
 
 
